@@ -13,6 +13,7 @@ import (
 	"time"
 
 	"verifsim/harness"
+	_ "verifsim/props/c02"
 	_ "verifsim/props/c12"
 	_ "verifsim/props/c13"
 )
@@ -88,6 +89,7 @@ func TestWorker(t *testing.T) {
 		samples := envInt("VERIF_SAMPLES", 0)
 		maxViol := envInt("VERIF_MAX_VIOL", 20)
 		nviol := int64(0)
+		nknown := 0
 		n := 0
 		for i := offset; i < count; i += stride {
 			if deadline > 0 && n%16 == 0 && time.Now().Unix() >= deadline {
@@ -103,7 +105,23 @@ func TestWorker(t *testing.T) {
 			if r.Violation != "" {
 				l.Kind = "violation"
 				l.Case = c
-				nviol++
+				if ks, ok := p.(harness.KnownStripper); ok {
+					if sc, found := ks.StripKnown(c); found {
+						if r2 := p.Run(t, sc, false); r2.Violation != "" {
+							// fails without the known construct too: a different violation
+							l.Case, l.Res = sc, r2
+						} else {
+							l.Kind = "known-candidate"
+							nknown++
+							if nknown > 3 {
+								l.Case = nil
+							}
+						}
+					}
+				}
+				if l.Kind == "violation" {
+					nviol++
+				}
 			} else if samples > 0 {
 				l.Case = c
 				samples--
